@@ -6,7 +6,7 @@ CFG = {
     "required_classes": ["step", "mode-verify", "mode-generate", "perturb-flip-first", "perturb-flip-middle", "perturb-flip-last", "perturb-truncate",
                          "perturb-extend", "perturb-delete", "perturb-delete-dir", "perturb-extra-file", "dir-missing", "unformattable-file",
                          "verify-ok", "verify-fails", "verify-readonly", "verify-only-through-args", "perturb-longer", "generate-over-longer-file",
-                         "verify-only-preset-no-flag-parsing", "verify-only-preset-with-flag-parsing", "verify-only-flag", "long-file-of-a-type-with-identity-formatter"],
+                         "verify-only-preset-no-flag-parsing", "verify-only-preset-with-flag-parsing", "verify-only-flag", "long-file-of-a-type-with-identity-formatter", "text-file-without-final-newline"],
     "rule": "histories of 2-5 generate/verify runs of one target (1-3 generators, 1-2 files of valid or unformattable Go) through the real ExecutePackage with the real golang file type on a scratch directory, with perturbations of the on-disk copy before verifies and before regenerations (flip the first/middle/last byte, truncate, extend, append a long stale tail, delete a file, delete the directory, add an unrelated file); every step is one case: (mode, filesystem before, what the run wants to write) -> (filesystem after, errors by file and kind); plus a read-only assertion over names, sizes, mtimes, hashes and directory existence; non-trivial = input longer than 12 characters",
     "exhaustive": [],
     "modelled": "Context.ExecutePackage with Context.Verify, DefaultFileType.VerifyFile and AssembleFile (generator/execute.go); the filesystem is a map name -> bytes plus 'directory exists'. What a run wants to write (formatted bytes per file, or 'unformattable') is an input, taken from an independent generation into a reference directory.",
